@@ -143,11 +143,20 @@ def run(op):
             # serialize then deserialize with the same type and keyword arguments
             v = dec_value(op["v"]) if op["v"]["t"] != "Enum" else list(enums[op["v"]["v"][0]])[op["v"]["v"][1]]
             s = converter.serialize(v, **kw)
-            back = converter.deserialize(s, [ty(op["type"], enums)], **kw)
-            same = back == v and type(back) is type(v)
+            try:
+                back = converter.deserialize(s, [ty(op["type"], enums)], **kw)
+            except ConverterError:
+                return {"ok": s, "back_err": "ConverterError", "same": False, "eq": False}
+            try:
+                eq = bool(back == v)
+            except Exception:  # comparing signaling NaNs raises
+                eq = False
+            same = eq and type(back) is type(v)
             if isinstance(v, float) and v != v:
                 same = isinstance(back, float) and back != back
-            return {"ok": s, "back": enc_value(back, enums), "same": bool(same), "eq": bool(back == v)}
+            if isinstance(v, Decimal) and v.is_nan():
+                same = isinstance(back, Decimal) and back.as_tuple() == v.as_tuple()
+            return {"ok": s, "back": enc_value(back, enums), "same": bool(same), "eq": eq}
         if k == "sort_types":
             names = {id(ty(t, enums)): t for t in op["types"]}
             return {"ok": [names[id(t)] for t in ConverterFactory.sort_types([ty(t, enums) for t in op["types"]])]}
